@@ -28,7 +28,9 @@ ASSUMPTIONS = [
     "position (C18) are taken from the library",
     "a sample whose |g| is below the listener's epsilon makes its two intervals unjudged (the sign of an "
     "exact zero is not part of the property); this includes the case where the bisection hands back the "
-    "very sample object as the event",
+    "very sample object as the event.  What IS required there (facet tie_on_a_sample): when g is exactly 0.0 on a "
+    "sample between two samples of opposite sign, at least one correctly labelled event within 5 us of that "
+    "sample, and none elsewhere in those two steps - how many events sit on the tie is left open",
     "completeness is relative to sampling: an even number of crossings inside one step is invisible to "
     "library and model alike; for anomaly listeners the step is kept below 1 rad of anomaly so that the "
     "wrap of the difference at +-pi cannot pass for a crossing",
@@ -1606,6 +1608,83 @@ def check_backward(case):
     return dict(nt=len(fe) > 0, cls=classes_of(case, stats))
 
 
+# ------------------------------------------------------------------ a sample exactly on the crossing (tie)
+
+
+@st.composite
+def tie_case(draw, shard, tier):
+    """Keplerian elements with argument of perigee 0 and anomaly 0 at a grid date: at that sample z == 0.0 and
+    r.v == 0.0 exactly (ascending node and periapsis sit ON the sample)."""
+    rp = 6378136.3 + draw(go.uniform(3e5, 3e6))
+    e = draw(go.uniform(0.01, 0.4))
+    a = rp / (1 - e)
+    period = TWO_PI * math.sqrt(a**3 / MU_E)
+    case = dict(mjd=draw(st.integers(50000, 57500)), sec=float(draw(st.integers(0, 86399))), a=a, e=e,
+                i=draw(go.uniform(0.1, 3.0)), raan=draw(go.uniform(0, TWO_PI)),
+                step=float(draw(st.integers(20, int(period / 8)))), before=draw(st.integers(1, 6)), after=draw(st.integers(1, 6)),
+                listener=draw(st.sampled_from(["node", "apside"])), frame=draw(st.sampled_from([None, "EME2000"])),
+                backward=draw(st.booleans()), source=draw(st.sampled_from(["kepler", "kepler", "ephem-own-points"])),
+                listeners_as=draw(st.sampled_from(["list", "single"])))
+    from ..oracles import iers
+
+    for leap in iers.tables(env.repo()).leap_days(0):
+        if case["mjd"] - 1 <= leap <= case["mjd"] + 1:
+            case["mjd"] = leap + 2
+    return case
+
+
+def check_tie(case):
+    from beyond.dates import Date, timedelta
+    from beyond.orbits import Orbit
+    from beyond.propagators import listeners as li
+    from beyond.propagators.kepler import Kepler
+
+    epoch = Date(int(case["mjd"]), float(case["sec"]))
+    step = timedelta(seconds=case["step"])
+    orb = Orbit([case["a"], case["e"], case["i"], case["raan"], 0.0, 0.0], epoch, "keplerian", "EME2000", Kepler())
+    lis = (li.NodeListener if case["listener"] == "node" else li.ApsideListener)(frame=case["frame"])
+    start, stop = epoch - step * case["before"], epoch + step * case["after"]
+    given = lis if case["listeners_as"] == "single" else [lis]
+    if case["source"] == "ephem-own-points":
+        eph = orb.ephem(start=start - step * 8, stop=stop + step * 8, step=step)
+        if case["backward"]:
+            it = eph.iter(start=stop, stop=start, step=-step, listeners=given)
+        else:
+            it = eph.iter(start=start, stop=stop, listeners=given)  # step=None: its own stored points
+    elif case["backward"]:
+        it = orb.iter(start=stop, stop=start, step=-step, listeners=given)
+    else:
+        it = orb.iter(start=start, stop=stop, step=step, listeners=given)
+    items = collect(it, epoch, [lis], 200)
+    what = (f"{case['listener']} listener (frame {case['frame']}), {case['source']}, {'backward' if case['backward'] else 'forward'}, "
+            f"step {case['step']} s, a={case['a'] / 1e3:.0f}km e={case['e']:.3f}: the sample at the epoch sits on the crossing")
+    on_tie = [it_ for it_ in items if it_.us == 0]
+    if not on_tie:
+        raise Violation("order-grid", f"{what}: no sample at the epoch in the stream")
+    g_tie = float(lis(on_tie[-1].sv))
+    vals = {it_.us: float(lis(it_.sv)) for it_ in items if it_.label is None or it_.dup}
+    step_us = int(round(case["step"] * US))
+    before, after = vals.get(-step_us), vals.get(step_us)
+    if g_tie != 0.0 or before is None or after is None or not (before * after < 0):
+        # not an exact tie on this platform / for these numbers: nothing to require
+        return dict(nt=False, cls=["not-an-exact-zero", f"L:{case['listener']}"])
+    # at omega = nu = 0 the satellite moves towards +z for every inclination in (0, pi), and r.v goes from - to +
+    want = "Asc Node" if case["listener"] == "node" else "Periapsis"
+    events = [it_ for it_ in items if it_.label is not None and it_.lis == 0 and abs(it_.us) <= 5]
+    if not events:
+        around = [(it_.us, it_.label) for it_ in items if abs(it_.us) <= step_us]
+        raise Violation("tie-crossing-lost", f"{what} (g = {before:.4g}, 0.0, {after:.4g} on three consecutive samples) but no "
+                                             f"event of that listener within 5 us of it; stream around it: {around}")
+    if not any(e_.label == want for e_ in events):
+        raise Violation("tie-label", f"{what}: events {[(e_.us, e_.label) for e_ in events]}, none is labelled '{want}'")
+    far = [it_ for it_ in items if it_.label is not None and it_.lis == 0 and 5 < abs(it_.us) < step_us]
+    if far:
+        raise Violation("model-spurious-" + case["listener"], f"{what}: further events {[(f.us, f.label) for f in far]} inside "
+                                                              f"the two steps around the tie, where the quantity has one zero")
+    return dict(nt=True, cls=[f"L:{case['listener']}", f"source:{case['source']}", "backward" if case["backward"] else "forward",
+                              f"events-at-the-tie:{min(len(events), 3)}", f"listeners-as:{case['listeners_as']}"])
+
+
 # ------------------------------------------------------------------ facets
 
 FACETS = [
@@ -1643,6 +1722,9 @@ FACETS = [
           quick=(6, 5), thorough=(16, 40)),
     Facet("backward", backward_case, check_backward, setup=setup, shrink_quick=False,
           rule="at least one event in the span", quick=(6, 5), thorough=(16, 40)),
+    Facet("tie_on_a_sample", tie_case, check_tie, setup=setup, shrink_quick=False,
+          rule="the watched quantity is exactly 0.0 on a sample between two samples of opposite sign",
+          quick=(4, 12), thorough=(16, 60)),
     Facet("reuse", reuse_case, check_reuse, setup=setup, shrink_quick=False,
           rule="at least one event over the history", quick=(4, 4), thorough=(16, 25)),
 ]
